@@ -114,6 +114,22 @@ var rules = map[string]func() astvalidation.Rule{
 	"StreamAppliedToListFieldsOnly":  astvalidation.StreamAppliedToListFieldsOnly,
 	"DirectivesAreUniquePerLocation": astvalidation.DirectivesAreUniquePerLocation,
 	"DirectivesAreDefined":           astvalidation.DirectivesAreDefined,
+	// every other zero-argument operation rule of the package, so that adding
+	// one of them to the engine's list does not need a change here
+	"AllVariableUsesDefined":              astvalidation.AllVariableUsesDefined,
+	"AllVariablesUsed":                    astvalidation.AllVariablesUsed,
+	"ArgumentUniqueness":                  astvalidation.ArgumentUniqueness,
+	"DocumentContainsExecutableOperation": astvalidation.DocumentContainsExecutableOperation,
+	"Fragments":                           astvalidation.Fragments,
+	"KnownArguments":                      astvalidation.KnownArguments,
+	"LoneAnonymousOperation":              astvalidation.LoneAnonymousOperation,
+	"OperationNameUniqueness":             astvalidation.OperationNameUniqueness,
+	"RequiredArguments":                   astvalidation.RequiredArguments,
+	"SubscriptionSingleRootField":         astvalidation.SubscriptionSingleRootField,
+	"ValidateEmptySelectionSets":          astvalidation.ValidateEmptySelectionSets,
+	"FieldSelections":                     astvalidation.FieldSelections,
+	"VariableUniqueness":                  astvalidation.VariableUniqueness,
+	"VariablesAreInputTypes":              astvalidation.VariablesAreInputTypes,
 }
 
 func build(names []string, prevalidation []string) ([]astnormalization.Option, error) {
